@@ -909,6 +909,12 @@ SEEDS["C04_cm_in_storage_snapshot_aliases_live"] = ("C04", [("@diff", "benign/S7
             variadic_memo.copy(),""")], "C04")
 SEEDS["C04_finally_restore_polarity_flipped"] = ("C04", [("@diff", "benign/RZ/4.diff", None), (P, """            if not matched:""", """            if matched:""")], "C04.1")
 SEEDS["C04_tuple_snapshot_is_live_tuple"] = ("C04", [("@diff", "benign/R5/1.diff", None), (P, """        backups = tuple([memo.copy() for memo in memos])""", """        backups = tuple([memo for memo in memos])""")], "C04")
+SEEDS["C04_namedtuple_snapshot_fields_swapped"] = ("C04", [("@diff", "benign/S7/2.diff", None), (S, """            self.single_memo.copy(),
+            self.variadic_memo.copy(),""", """            self.variadic_memo.copy(),
+            self.single_memo.copy(),""")], "C04")
+SEEDS["C04_storage_snapshot_helper_aliases_a_memo"] = ("C04", [("@diff", "benign/S7/4.diff", None), (S, """        pytree_structures.copy(),
+        arg_values.copy(),""", """        pytree_structures,
+        arg_values.copy(),""")], "C04")
 SEEDS["C18_code_memo_blind_to_checker"] = ("C18", [(H, """class Typechecker:
     lookup = {}
 """, """_compiled_code = {}
